@@ -49,8 +49,10 @@ V = [
   [("PROCESS_SELECT_COMMON = '''\n", "PROCESS_SELECT_COMMON = '''\nkept_rows = query_context.writer.kept_rows\nkept_rows.append(record_a)\n")], 'FLAG'),
  ('V1e other query_context attribute aliased and mutated (unnest_list)', None, PY,
   [("PROCESS_SELECT_COMMON = '''\n", "PROCESS_SELECT_COMMON = '''\nul = query_context.unnest_list\nul.append(1)\n")], 'FLAG'),
- ('V1f JS: alias of writer state, source row pushed into it', 'C19-h1', JS,
-  [('            aggregators.push(aggregator);\n', '            aggregators.push(aggregator);\n            aggregators.push(transparent_values[0]);\n')], 'FLAG'),
+ ('V1f JS: a cell pushed into writer state through the alias, read back and mutated', 'C19-h1', JS,
+  [('            aggregators.push(aggregator);\n', '            aggregators.push(aggregator);\n            aggregators.push(transparent_values[0]);\n            aggregators[0].push(1);\n')], 'FLAG'),
+ ('K3 [control] JS: a cell is only KEPT in writer state through the alias (its elements are never trusted)', 'C19-h1', JS,
+  [('            aggregators.push(aggregator);\n', '            aggregators.push(aggregator);\n            aggregators.push(transparent_values[0]);\n')], 'OK'),
  ('V1g engine-owned list: element read back and mutated', 'C16-h1', PY,
   [('        functional_aggregators.append(', '        functional_aggregators[0].append(1)\n        functional_aggregators.append(')], 'FLAG'),
  ('V2a helper mutates the stored (owned) record before writing it [control: legitimate]', 'C02-h1', PY,
@@ -67,8 +69,10 @@ V = [
   [('    for record in records:\n        if not subwriter.write(record):', '    subwriter = subwriter or None\n    for record in records:\n        if not subwriter.write(record):')], 'OK'),
  ('V3a handler mutates a cell of fields before return False', 'C15-h1', CSV,
   [('            self.broken_pipe = True\n            return False\n        return True\n', '            fields[0].append(1)\n            self.broken_pipe = True\n            return False\n        return True\n')], 'FLAG'),
- ('V3b handler keeps a cell of fields before return False', 'C15-h1', CSV,
-  [('            self.broken_pipe = True\n            return False\n        return True\n', '            self.kept = fields[0]\n            self.broken_pipe = True\n            return False\n        return True\n')], 'FLAG'),
+ ('V3b handler keeps a cell of fields in an attribute, reads it back and mutates it', 'C15-h1', CSV,
+  [('            self.broken_pipe = True\n            return False\n        return True\n', '            self.kept = fields[0]\n            kept = self.kept\n            kept.append(1)\n            self.broken_pipe = True\n            return False\n        return True\n')], 'FLAG'),
+ ('V3e [control] handler only KEEPS a cell of fields in an attribute (whoever reads it back gets a cell)', 'C15-h1', CSV,
+  [('            self.broken_pipe = True\n            return False\n        return True\n', '            self.kept = fields[0]\n            self.broken_pipe = True\n            return False\n        return True\n')], 'OK'),
  ('V3c handler mutates fields itself [control: legitimate, the writer owns what it is handed]', 'C15-h1', CSV,
   [('            self.broken_pipe = True\n            return False\n        return True\n', '            fields.append(1)\n            self.broken_pipe = True\n            return False\n        return True\n')], 'OK'),
  ('V3d statement after the try mutates a cell (rest of the block must not be lost)', 'C15-h1', CSV,
